@@ -163,9 +163,12 @@ def s2(ctx, rep):
         if isinstance(st, ast.Assign) and isinstance(st.value, ast.Call) and fn_name(st.value) == "get" \
                 and "metrics" in U(st.value.func.value) and isinstance(st.targets[0], ast.Name):
             mv = st.targets[0].id
-    if mv is None:
-        raise AnchorError("label_trial: `metric_vals = data.metrics.get(INTERNAL_METRIC_NAME)` not found")
-    _, viol = ctx.must_precede(f, None, None, a_nodes=a_nodes, b_nodes=b_nodes, assume=[f"{mv} is not None"])
+    # "new labels of the internal metric are present", whichever way it is tested: the value fetched with .get is not None, or
+    # the key is in data.metrics and its entry is not None
+    assume = ["INTERNAL_METRIC_NAME in data.metrics", "data.metrics[INTERNAL_METRIC_NAME] is not None"] + ([f"{mv} is not None"] if mv is not None else [])
+    if mv is None and not any(isinstance(x, ast.Compare) and isinstance(x.ops[0], ast.In) and U(x.left) == "INTERNAL_METRIC_NAME" for x in walk_shallow(f.node)):
+        raise AnchorError("label_trial: no test for the presence of new INTERNAL_METRIC_NAME labels found")
+    _, viol = ctx.must_precede(f, None, None, a_nodes=a_nodes, b_nodes=b_nodes, assume=assume)
     rep.put(not viol, "S2", "must_precede", "ModelStateTransformer.label_trial: drop_pending_evaluation ≺ label store",
             f, None, f"{len(a_nodes)} drop sites precede {len(b_nodes)} label stores when new labels are present",
             "a path stores new labels without dropping the pending evaluation at those levels",
